@@ -51,10 +51,19 @@ def main():
         'c': fr(fl['c']),
         'B': (lambda *X, _B=np.array([[fr(x) for x in row] for row in fl['B']]): np.broadcast_to(_B, np.shape(X[0]) + _B.shape).copy()),
     }
-    expr = job.get('expr') or vf_gen.render(job['tokens'])
+    expr = job.get('expr') or vf_gen.render(job['tokens'], job.get('measure', 'dx'))
     res = {'id': job['id'], 'expr': expr}
     try:
-        if job.get('ncu', 1) > 1 or job.get('ncv', 1) > 1:
+        if job.get('sides'):
+            # boundary integrals on several sides, one after the other, with ONE args dict (as a user script would)
+            res['sides'] = []
+            for ax, side in job['sides']:
+                Ms = assemble.assemble(expr, kvs, args=args, boundary=(ax, side))
+                Ms = Ms.toarray() if hasattr(Ms, 'toarray') else Ms
+                Ms = np.asarray(Ms, dtype=float)
+                res['sides'].append(Ms.ravel().tolist())
+            M = Ms
+        elif job.get('ncu', 1) > 1 or job.get('ncv', 1) > 1:
             bf = ([('u', job['ncu'])] if job['bilinear'] else []) + [('v', job['ncv'])]
             M = assemble.assemble(expr, kvs, args=args, bfuns=bf)
         elif job.get('twospace'):
